@@ -904,6 +904,303 @@ def a64_templates(thorough=False):
     return out
 
 
+
+# =============================================================================================
+# MIPS32 release 2 -- MIPS Architecture for Programmers Vol. II (MD00086)
+
+def mips_templates(thorough=False):
+    out = []
+    for arch in ("mips32l", "mips32b"):
+        sub = []
+
+        def add(text, mn, slots, fn, cap=None, group="mips", sub=sub, arch=arch):
+            sub.append(Tpl(arch, text, mn, slots, fn, cap=cap, group=group))
+        A, B = "A0", "A1"
+        two = [(A, "w32"), (B, "w32")]
+        R3 = {"addu": lambda x, y: x + y, "subu": lambda x, y: x - y, "and": lambda x, y: x & y,
+              "or": lambda x, y: x | y, "xor": lambda x, y: x ^ y, "nor": lambda x, y: ~(x | y),
+              "slt": lambda x, y: int(sx(x, 32) < sx(y, 32)), "sltu": lambda x, y: int(x < y),
+              "mul": lambda x, y: sx(x, 32) * sx(y, 32),
+              "movn": None, "movz": None}
+        for mn, f in R3.items():
+            if f is None:
+                add("%s $v0, $a0, $a1" % mn, mn.upper(), [("V0", "w32")] + two,
+                    lambda st, mn=mn: ({"V0": st["A0"]} if (st["A1"] != 0) == (mn == "movn") else {}), cap=100)
+            else:
+                und = ("R_HI", "R_LO") if mn == "mul" else ()       # MUL leaves HI/LO UNPREDICTABLE
+                add("%s $v0, $a0, $a1" % mn, mn.upper(), two,
+                    lambda st, f=f, und=und: {"V0": f(st["A0"], st["A1"]) & M(32), "_undef": und})
+                add("%s $a0, $a0, $a1" % mn, mn.upper(), two,
+                    lambda st, f=f, und=und: {"A0": f(st["A0"], st["A1"]) & M(32), "_undef": und}, cap=40)
+        # destination $zero is discarded
+        add("addu $zero, $a0, $a1", "ADDU", two, lambda st: {}, cap=8)
+        IMM = {"addiu": (lambda x, i: x + sx(i, 16)), "andi": (lambda x, i: x & i), "ori": (lambda x, i: x | i),
+               "xori": (lambda x, i: x ^ i), "slti": (lambda x, i: int(sx(x, 32) < sx(i, 16))),
+               "sltiu": (lambda x, i: int(x < (sx(i, 16) & M(32))))}
+        for mn, f in IMM.items():
+            for i in (0, 1, 0x7fff, 0x8000, 0xffff, 0x1234):
+                txt = i if mn in ("andi", "ori", "xori") else sx(i, 16)
+                add("%s $v0, $a0, %d" % (mn, txt), mn.upper(), [(A, "w32")],
+                    lambda st, f=f, i=i: {"V0": f(st["A0"], i) & M(32)})
+        for i in (0, 1, 0x7fff, 0x8000, 0xffff):
+            add("lui $v0, 0x%x" % i, "LUI", [], lambda st, i=i: {"V0": i << 16})
+        for mn, f in (("sll", lambda x, k: x << k), ("srl", lambda x, k: x >> k),
+                      ("sra", lambda x, k: sx(x, 32) >> k), ("rotr", lambda x, k: ror(x, k, 32))):
+            for k in (0, 1, 5, 16, 31):
+                if mn == "sll" and k == 0:
+                    continue            # sll $0,$0,0 family = nop encodings
+                add("%s $v0, $a0, %d" % (mn, k), mn.upper(), [(A, "w32")], lambda st, f=f, k=k: {"V0": f(st["A0"], k) & M(32)})
+            add("%sv $v0, $a0, $a1" % mn, mn.upper() + "V", [(A, "w32"), (B, "amt")],
+                lambda st, f=f: {"V0": f(st["A0"], st["A1"] & 31) & M(32)}, cap=120)
+
+        def mult(signed, acc):
+            def fn(st):
+                x, y = st["A0"], st["A1"]
+                if signed:
+                    x, y = sx(x, 32), sx(y, 32)
+                p = x * y
+                if acc:
+                    cur = st["R_HI"] << 32 | st["R_LO"]
+                    p = cur + p if acc > 0 else cur - p
+                p &= M(64)
+                return {"R_HI": p >> 32, "R_LO": p & M(32)}
+            return fn
+        add("mult $a0, $a1", "MULT", two, mult(True, 0))
+        add("multu $a0, $a1", "MULTU", two, mult(False, 0))
+        hl = [("R_HI", "w32"), ("R_LO", "w32")]
+        add("madd $a0, $a1", "MADD", two + hl, mult(True, 1), cap=150)
+        add("maddu $a0, $a1", "MADDU", two + hl, mult(False, 1), cap=150)
+        add("msub $a0, $a1", "MSUB", two + hl, mult(True, -1), cap=150)
+        add("msubu $a0, $a1", "MSUBU", two + hl, mult(False, -1), cap=150)
+
+        def div(signed):
+            def fn(st):
+                x, y = st["A0"], st["A1"]
+                if y == 0:
+                    return None             # UNPREDICTABLE
+                if signed:
+                    x, y = sx(x, 32), sx(y, 32)
+                    if x == -(1 << 31) and y == -1:
+                        return None         # quotient not representable: not defined by the manual
+                    q = abs(x) // abs(y)
+                    if (x < 0) != (y < 0):
+                        q = -q
+                    r = x - q * y
+                else:
+                    q, r = x // y, x % y
+                return {"R_LO": q & M(32), "R_HI": r & M(32)}
+            return fn
+        add("div $zero, $a0, $a1", "DIV", two, div(True), cap=200)
+        add("divu $zero, $a0, $a1", "DIVU", two, div(False), cap=200)
+        add("mfhi $v0", "MFHI", [("R_HI", "w32")], lambda st: {"V0": st["R_HI"]})
+        add("mflo $v0", "MFLO", [("R_LO", "w32")], lambda st: {"V0": st["R_LO"]})
+        add("mthi $a0", "MTHI", [(A, "w32")], lambda st: {"R_HI": st["A0"]})
+        add("mtlo $a0", "MTLO", [(A, "w32")], lambda st: {"R_LO": st["A0"]})
+        add("clz $v0, $a0", "CLZ", [(A, "w32")], lambda st: {"V0": clz(st["A0"], 32)})
+        add("clo $v0, $a0", "CLO", [(A, "w32")], lambda st: {"V0": clz(~st["A0"], 32)})
+        add("seb $v0, $a0", "SEB", [(A, "w32")], lambda st: {"V0": sx(st["A0"], 8) & M(32)})
+        add("seh $v0, $a0", "SEH", [(A, "w32")], lambda st: {"V0": sx(st["A0"], 16) & M(32)})
+        add("wsbh $v0, $a0", "WSBH", [(A, "w32")],
+            lambda st: {"V0": bswap(st["A0"] >> 16, 2) << 16 | bswap(st["A0"] & 0xffff, 2)})
+        for pos, size in ((0, 1), (0, 32), (31, 1), (4, 8), (7, 17), (16, 16), (1, 31)):
+            add("ext $v0, $a0, %d, %d" % (pos, size), "EXT", [(A, "w32")],
+                lambda st, pos=pos, size=size: {"V0": (st["A0"] >> pos) & M(size)})
+            add("ins $v0, $a0, %d, %d" % (pos, size), "INS", [("V0", "w32"), (A, "w32")],
+                lambda st, pos=pos, size=size:
+                {"V0": (st["V0"] & ~(M(size) << pos) & M(32)) | (st["A0"] & M(size)) << pos}, cap=40)
+        if arch == "mips32b" and not thorough:
+            # the big-endian decoder shares the semantics: a thinner slice in the quick tier
+            for t in sub:
+                t.cap = min(t.cap or 64, 12)
+        out += sub
+    return out
+
+
+# =============================================================================================
+# PowerPC 32-bit -- Power ISA Book I chapter 3 (fixed-point facility)
+
+def ppc_mask(mb, me):
+    """MASK(mb, me) in IBM numbering (bit 0 = most significant of 32)"""
+    def bit(i):
+        return 1 << (31 - i)
+    m = 0
+    i = mb
+    while True:
+        m |= bit(i)
+        if i == me:
+            break
+        i = (i + 1) % 32
+    return m
+
+
+def ppc_templates(thorough=False):
+    out = []
+    arch = "ppc32b"
+
+    def add(text, mn, slots, fn, fl="01", cap=None, group="ppc"):
+        out.append(Tpl(arch, text, mn, slots, fn, flagsets=fl, cap=cap, group=group))
+
+    def cr_of(r, so, f=0):
+        s = sx(r, 32)
+        return {"CR%d_LT" % f: int(s < 0), "CR%d_GT" % f: int(s > 0), "CR%d_EQ" % f: int(s == 0), "CR%d_SO" % f: so}
+
+    def arith(name, a_of, b_of, c_of, ca_out, regs):
+        """rt = a + b + c ; variants: '' / '.' / 'o' / 'o.'"""
+        for oe in ("", "o"):
+            for rc in ("", "."):
+                def fn(st, oe=oe, rc=rc):
+                    a, b, c = a_of(st) & M(32), b_of(st) & M(32), c_of(st)
+                    r, _n, _z, co, ov = awc(a, b, c, 32)
+                    up = {"R3": r}
+                    if ca_out:
+                        up["XER_CA"] = co
+                    so = st["XER_SO"]
+                    if oe:
+                        up["XER_OV"] = ov
+                        so = so | ov
+                        up["XER_SO"] = so
+                    if rc:
+                        up.update(cr_of(r, so))
+                    return up
+                uses_ca = "ca"
+                add("%s%s%s %s" % (name, oe, rc, regs), (name + oe + rc).upper(),
+                    [(r, "w32") for r in ("R4", "R5") if r.lower()[1:] in [x.strip() for x in regs.split(",")[1:]]],
+                    fn, fl=uses_ca, cap=160 if regs.count(",") == 2 else None)
+    ra, rb, ca = (lambda st: st["R4"]), (lambda st: st["R5"]), (lambda st: st["XER_CA"])
+    zero, one, m1 = (lambda st: 0), (lambda st: 1), (lambda st: M(32))
+    nra = lambda st: ~st["R4"]
+    arith("add", ra, rb, zero, False, "3, 4, 5")
+    arith("addc", ra, rb, zero, True, "3, 4, 5")
+    arith("adde", ra, rb, ca, True, "3, 4, 5")
+    arith("addze", ra, zero, ca, True, "3, 4")
+    arith("addme", ra, m1, ca, True, "3, 4")
+    arith("subf", nra, rb, one, False, "3, 4, 5")
+    arith("subfc", nra, rb, one, True, "3, 4, 5")
+    arith("subfe", nra, rb, ca, True, "3, 4, 5")
+    arith("subfze", nra, zero, ca, True, "3, 4")
+    arith("subfme", nra, m1, ca, True, "3, 4")
+    arith("neg", nra, zero, one, False, "3, 4")
+    for si in (0, 1, -1, 0x7fff, -0x8000, 0x1234):
+        v = si & M(32)
+        add("addi 3, 4, %d" % si, "ADDI", [("R4", "w32")], lambda st, v=v: {"R3": (st["R4"] + v) & M(32)}, cap=26)
+        add("addis 3, 4, %d" % si, "ADDIS", [("R4", "w32")], lambda st, v=v: {"R3": (st["R4"] + (v << 16)) & M(32)}, cap=26)
+        add("addi 3, 0, %d" % si, "ADDI", [("R0", "w32")], lambda st, v=v: {"R3": v}, cap=4)       # RA=0 reads as zero
+
+        def addic(st, v=v, rc=False):
+            r, _n, _z, co, _v = awc(st["R4"], v, 0, 32)
+            up = {"R3": r, "XER_CA": co}
+            if rc:
+                up.update(cr_of(r, st["XER_SO"]))
+            return up
+        add("addic 3, 4, %d" % si, "ADDIC", [("R4", "w32")], addic, fl="ca", cap=52)
+        add("addic. 3, 4, %d" % si, "ADDIC.", [("R4", "w32")], lambda st, f=addic: f(st, rc=True), fl="ca", cap=52)
+
+        def subfic(st, v=v):
+            r, _n, _z, co, _v = awc(~st["R4"], v, 1, 32)
+            return {"R3": r, "XER_CA": co}
+        add("subfic 3, 4, %d" % si, "SUBFIC", [("R4", "w32")], subfic, fl="ca", cap=52)
+        add("mulli 3, 4, %d" % si, "MULLI", [("R4", "w32")], lambda st, si=si: {"R3": (sx(st["R4"], 32) * si) & M(32)}, cap=26)
+    two = [("R4", "w32"), ("R5", "w32")]
+    for rc in ("", "."):
+        def rcw(fn, rc=rc):
+            def g(st):
+                up = fn(st)
+                if rc and up is not None:
+                    up.update(cr_of(up["R3"], st["XER_SO"]))
+                return up
+            return g
+        add("mullw%s 3, 4, 5" % rc, "MULLW" + rc, two, rcw(lambda st: {"R3": (st["R4"] * st["R5"]) & M(32)}), cap=160)
+        add("mulhw%s 3, 4, 5" % rc, "MULHW" + rc, two,
+            rcw(lambda st: {"R3": ((sx(st["R4"], 32) * sx(st["R5"], 32)) >> 32) & M(32)}), cap=160)
+        add("mulhwu%s 3, 4, 5" % rc, "MULHWU" + rc, two, rcw(lambda st: {"R3": (st["R4"] * st["R5"]) >> 32}), cap=160)
+
+        def divw(st):
+            x, y = sx(st["R4"], 32), sx(st["R5"], 32)
+            if y == 0 or (x == -(1 << 31) and y == -1):
+                return None                 # RT (and CR0) undefined
+            q = abs(x) // abs(y)
+            if (x < 0) != (y < 0):
+                q = -q
+            return {"R3": q & M(32)}
+
+        def divwu(st):
+            if st["R5"] == 0:
+                return None
+            return {"R3": st["R4"] // st["R5"]}
+        add("divw%s 3, 4, 5" % rc, "DIVW" + rc, two, rcw(divw), cap=200)
+        add("divwu%s 3, 4, 5" % rc, "DIVWU" + rc, two, rcw(divwu), cap=200)
+        # logical (destination RA = r3, sources RS = r4, RB = r5)
+        for mn, f in (("and", lambda x, y: x & y), ("or", lambda x, y: x | y), ("xor", lambda x, y: x ^ y),
+                      ("nand", lambda x, y: ~(x & y)), ("nor", lambda x, y: ~(x | y)), ("andc", lambda x, y: x & ~y),
+                      ("orc", lambda x, y: x | ~y), ("eqv", lambda x, y: ~(x ^ y))):
+            add("%s%s 3, 4, 5" % (mn, rc), (mn + rc).upper(), two, rcw(lambda st, f=f: {"R3": f(st["R4"], st["R5"]) & M(32)}))
+        add("extsb%s 3, 4" % rc, "EXTSB" + rc, two[:1], rcw(lambda st: {"R3": sx(st["R4"], 8) & M(32)}))
+        add("extsh%s 3, 4" % rc, "EXTSH" + rc, two[:1], rcw(lambda st: {"R3": sx(st["R4"], 16) & M(32)}))
+        add("cntlzw%s 3, 4" % rc, "CNTLZW" + rc, two[:1], rcw(lambda st: {"R3": clz(st["R4"], 32)}))
+
+        def slw(st):
+            n = st["R5"] & 0x3f
+            return {"R3": (st["R4"] << n) & M(32) if n < 32 else 0}
+
+        def srw(st):
+            n = st["R5"] & 0x3f
+            return {"R3": st["R4"] >> n if n < 32 else 0}
+
+        def sraw_n(v, n):
+            s = v >> 31
+            if n > 31:
+                return (M(32) if s else 0), s
+            r = (sx(v, 32) >> n) & M(32)
+            return r, int(bool(s and (v & M(n))))
+
+        def sraw(st):
+            r, c = sraw_n(st["R4"], st["R5"] & 0x3f)
+            return {"R3": r, "XER_CA": c}
+        amt2 = [("R4", "w32"), ("R5", "amt")]
+        add("slw%s 3, 4, 5" % rc, "SLW" + rc, amt2, rcw(slw), cap=120)
+        add("srw%s 3, 4, 5" % rc, "SRW" + rc, amt2, rcw(srw), cap=120)
+        add("sraw%s 3, 4, 5" % rc, "SRAW" + rc, amt2, rcw(sraw), fl="ca", cap=160)
+        for n in (0, 1, 16, 31):
+            add("srawi%s 3, 4, %d" % (rc, n), "SRAWI" + rc, two[:1],
+                rcw(lambda st, n=n: (lambda t: {"R3": t[0], "XER_CA": t[1]})(sraw_n(st["R4"], n))), fl="ca", cap=52)
+        # rotate and mask
+        mbme = [(0, 31), (0, 0), (31, 31), (8, 23), (24, 7), (16, 15), (1, 0), (31, 0), (0, 30), (5, 5), (28, 3)]
+        shs = [0, 1, 8, 31] if not thorough else [0, 1, 4, 8, 15, 16, 24, 31]
+        for mb, me in mbme:
+            m = ppc_mask(mb, me)
+            for sh in shs:
+                add("rlwinm%s 3, 4, %d, %d, %d" % (rc, sh, mb, me), "RLWINM" + rc, two[:1],
+                    rcw(lambda st, sh=sh, m=m: {"R3": rol(st["R4"], sh, 32) & m}), cap=16)
+                add("rlwimi%s 3, 4, %d, %d, %d" % (rc, sh, mb, me), "RLWIMI" + rc, [("R3", "w32"), ("R4", "w32")],
+                    rcw(lambda st, sh=sh, m=m: {"R3": (rol(st["R4"], sh, 32) & m) | (st["R3"] & ~m & M(32))}), cap=24)
+            add("rlwnm%s 3, 4, 5, %d, %d" % (rc, mb, me), "RLWNM" + rc, amt2,
+                rcw(lambda st, m=m: {"R3": rol(st["R4"], st["R5"] & 31, 32) & m}), cap=60)
+    for ui in (0, 1, 0x7fff, 0x8000, 0xffff):
+        add("andi. 3, 4, %d" % ui, "ANDI.", two[:1],
+            lambda st, ui=ui: (lambda r: dict(cr_of(r, st["XER_SO"]), R3=r))(st["R4"] & ui))
+        add("andis. 3, 4, %d" % ui, "ANDIS.", two[:1],
+            lambda st, ui=ui: (lambda r: dict(cr_of(r, st["XER_SO"]), R3=r))(st["R4"] & (ui << 16)))
+        add("ori 3, 4, %d" % ui, "ORI", two[:1], lambda st, ui=ui: {"R3": st["R4"] | ui}, cap=26)
+        add("oris 3, 4, %d" % ui, "ORIS", two[:1], lambda st, ui=ui: {"R3": st["R4"] | ui << 16}, cap=26)
+        add("xori 3, 4, %d" % ui, "XORI", two[:1], lambda st, ui=ui: {"R3": st["R4"] ^ ui}, cap=26)
+        add("xoris 3, 4, %d" % ui, "XORIS", two[:1], lambda st, ui=ui: {"R3": st["R4"] ^ ui << 16}, cap=26)
+    # compares into every CR field
+    for f in (0, 1, 7):
+        def cmpf(st, f=f, signed=True, y_of=None):
+            x, y = st["R4"], y_of(st) & M(32)
+            if signed:
+                x, y = sx(x, 32), sx(y, 32)
+            return {"CR%d_LT" % f: int(x < y), "CR%d_GT" % f: int(x > y), "CR%d_EQ" % f: int(x == y),
+                    "CR%d_SO" % f: st["XER_SO"]}
+        add("cmpw %d, 4, 5" % f, "CMPW", two, lambda st, g=cmpf: g(st, y_of=lambda s: s["R5"]), cap=200)
+        add("cmplw %d, 4, 5" % f, "CMPLW", two, lambda st, g=cmpf: g(st, signed=False, y_of=lambda s: s["R5"]), cap=200)
+        for si in (0, 1, -1, 0x7fff, -0x8000):
+            add("cmpwi %d, 4, %d" % (f, si), "CMPWI", two[:1], lambda st, g=cmpf, si=si: g(st, y_of=lambda s: si), cap=52)
+            add("cmplwi %d, 4, %d" % (f, si & 0xffff), "CMPLWI", two[:1],
+                lambda st, g=cmpf, si=si: g(st, signed=False, y_of=lambda s: si & 0xffff), cap=52)
+    return out
+
+
 def all_templates(thorough=False):
     out = []
     for arch in ("arml", "armtl"):
